@@ -42,7 +42,21 @@ def S(W, d, o, i):
     return W.source(d.srcs[i], o.fl[i] if (W.mode == "a" or o.fl[i] in ("list", "llist")) else "iter")
 
 
+class CallableRaised(ValueError):
+    pass
+
+
 def F(W, o, name, impl):
+    if getattr(o, "raising", False):
+        # the callable raises for items with a key below -5 (the solver picks which)
+        inner = impl
+
+        def impl(*xs):
+            for x in xs:
+                if isinstance(x, Item) and x.key < -5:
+                    raise CallableRaised("callable refuses this item")
+            return inner(*xs)
+
     return W.fn(name, impl, o.ffl)
 
 
@@ -282,6 +296,8 @@ def _scoped_twice_s(src):
 _reg(Tool("scoped_twice", (1, 1), lambda W, d, o: _scoped_twice_a(S(W, d, o, 0)), lambda W, d, o: _scoped_twice_s(S(W, d, o, 0))))
 _reg(Tool("compress_shared", (1, 1), _shared(A.compress), _shared(itertools.compress)))
 _reg(Tool("zip_shared", (1, 1), _shared(A.zip), _shared(builtins.zip)))
+_reg(Tool("zip_longest_shared", (1, 1), _shared(A.zip_longest), _shared(itertools.zip_longest)))
+_reg(Tool("zip_longest_shared3", (1, 1), lambda W, d, o: (lambda it: A.zip_longest(it, it, it))(S(W, d, o, 0)), lambda W, d, o: (lambda it: itertools.zip_longest(it, it, it))(S(W, d, o, 0))))
 _reg(Tool("enumerate", (1, 1), lambda W, d, o: A.enumerate(S(W, d, o, 0), d.p[0]), lambda W, d, o: builtins.enumerate(S(W, d, o, 0), d.p[0]), ints=True, spec=lambda W, d, o: enumerate_spec(S(W, d, o, 0), d.p[0])))
 _reg(Tool("enumerate0", (1, 1), lambda W, d, o: A.enumerate(S(W, d, o, 0)), lambda W, d, o: builtins.enumerate(S(W, d, o, 0))))
 _reg(Tool("iter_sentinel", (1, 1), lambda W, d, o: A.iter(_pop_iter(W, d, o, 0), d.sentinel), lambda W, d, o: builtins.iter(_pop_iter(W, d, o, 0), d.sentinel), fn=True))
